@@ -97,16 +97,18 @@ CHECKS = {
                  "codec for non-UTF-8 names, which the generic runtime refuses — see C20); the bridge component-level id theorem -> byte-level model is by correspondence."),
     },
     "C04": {
-        "text": ("Lean theorems (unbounded, safety part): the receiver can send FIN / report success only after the end marker and the terminator of every "
-                 "needed id (fin_only_if_complete, any event sequence, i.e. any fault point); convergence holds from every valid prior destination, hence from "
-                 "what an aborted run leaves (resume_converges). Correspondence/fault enumeration: one injected fault per run (n-th Send/RecvMsg on either end, "
-                 "cancellation after k packets, walk error at entry k, read error at offset j, hasher/notify error, SIGKILL after k packets, peer that stops "
-                 "reading with 0..320 requests pending), teardown after a grace period; oracle: both calls return within 3 s, no fsutil goroutine left, "
-                 "success only with a converged destination / a received FIN, a follow-up fault-free transfer converges (C01 spec in Lean)."),
-        "note": ("Trusted: Lean kernel + standard axioms. Termination after teardown (liveness) is decided by fault enumeration on the real code, not by a "
-                 "theorem: the concrete blocking LTS of DESIGN.md §5.7 is not built. 'Bounded time' is wall-clock 3 s after teardown; a read or callback that "
-                 "never returns is outside the statement."),
-        "technique": "Lean 4 safety theorems about the receiver LTS + fault enumeration on the real code with a Lean-evaluated convergence oracle",
+        "text": ("Lean theorems (unbounded): LIVENESS on a concrete blocking model of the sender's goroutines (walker, n workers, pipeline of capacity cap, "
+                 "receive loop): after teardown no well-formed state with a live goroutine is stuck (sender_no_deadlock_after_teardown, any n >= 1, cap >= 1, any "
+                 "number of pending requests) and every step decreases a variant (sender_terminates_after_teardown); invariant preserved (sender_wf_invariant); "
+                 "kernel-checked stuck state for the unrepaired push (unrepaired_sender_can_block_forever). SAFETY: the receiver can send FIN / report success only "
+                 "after the end marker and every needed terminator (fin_only_if_complete); convergence from every valid prior destination (resume_converges). "
+                 "Fault enumeration on the real code: n-th Send/RecvMsg failing on either end, cancellation after k packets, walk error, read error at offset j, "
+                 "hasher/notify error, SIGKILL after k packets, peer that stops reading with 0..320 requests pending; teardown after a grace period; oracle: both "
+                 "calls return within 3 s, no fsutil goroutine left, success only with a converged destination / a received FIN, follow-up transfer converges."),
+        "note": ("Trusted: Lean kernel + standard axioms. The concrete LTS covers the sender (where the defect was); the receiver's termination after teardown is "
+                 "decided by fault enumeration only. The LTS is tied to the code by the fault suites' observed outcomes (never 'blocked'), not by a step-by-step "
+                 "correspondence. 'Bounded time' on the real code is wall-clock 3 s after teardown; environment calls (reads, callbacks) are assumed to return."),
+        "technique": "Lean 4 liveness (no-deadlock + variant) and safety theorems about LTS models + fault enumeration on the real code with a Lean-evaluated convergence oracle",
     },
     "C08": {
         "text": ("Lean theorems (unbounded): bytes sent for a finished id are the same in any two runs of the sender LTS (sent_bytes_schedule_independent); "
